@@ -328,6 +328,8 @@ class FakeBLE(RF24):
     @RF24.channel.setter  # type: ignore[attr-defined]
     def channel(self, value: int):
         if value in BLE_FREQ:
+            # whiten() must use the BLE channel that the radio is tuned to
+            self._curr_freq = BLE_FREQ.index(value)
             self._channel = value
             self._reg_write(0x05, value)
 
